@@ -15,8 +15,14 @@ from typing import (
 
 from ..exc import ExtensionError, SDLError
 from ..lang import ast as _ast, parse
-from ..schema import SPECIFIED_DIRECTIVES, NamedType, ObjectType, Schema
-from .ast_type_builder import ASTTypeBuilder
+from ..schema import (
+    SPECIFIED_DIRECTIVES,
+    NamedType,
+    ObjectType,
+    ScalarType,
+    Schema,
+)
+from .ast_type_builder import _DEFAULT_TYPES_MAP, ASTTypeBuilder
 from .schema_directives import TSchemaDirective, apply_schema_directives
 
 
@@ -218,6 +224,19 @@ def extend_schema(
     schema_exts, type_defs, directive_defs, type_exts = _collect_extensions(
         schema, ast, strict=strict
     )
+
+    # Specified scalars are never extended (their extensions are ignored),
+    # but an extension of another kind is still an error.
+    for name, extensions in type_exts.items():
+        if isinstance(_DEFAULT_TYPES_MAP.get(name), ScalarType):
+            for extension in extensions:
+                if not isinstance(extension, _ast.ScalarTypeExtension):
+                    raise ExtensionError(
+                        "Expected ScalarTypeExtension when extending "
+                        'ScalarType "%s" but got %s'
+                        % (name, type(extension).__name__),
+                        [extension],
+                    )
 
     if not (
         schema_exts
